@@ -157,6 +157,9 @@ pub struct Fams {
     pub sweep_inputs: Vec<Named>,
     pub align_cfgs: Vec<DCfg>,
     pub align_inputs: Vec<Named>,
+    /// inputs sitting exactly at the match finder's tuning thresholds (good_match, max_lazy, nice_length, max_chain)
+    pub thresh_cfgs: Vec<DCfg>,
+    pub thresh_inputs: Vec<Named>,
     pub rich: bool,
 }
 
@@ -283,7 +286,27 @@ pub fn build(quick: bool) -> Fams {
         }
     }
     let align_cfgs: Vec<DCfg> = [(1, 0, Wrap::Zlib), (1, 4, Wrap::Raw), (2, 0, Wrap::Raw), (6, 4, Wrap::Zlib), (9, 2, Wrap::Raw)].iter().map(|&(level, strategy, wrap)| DCfg { level, strategy, wbits: 9, mem_level: 1, wrap }).collect();
-    Fams { tiny_inputs: tiny_set(quick), tiny_cfgs, shape_sets, big_cfgs, big_inputs, sweep_cfgs, sweep_inputs, align_cfgs, align_inputs, rich: !quick }
+    let mut thresh_inputs = vec![];
+    let prevs: Vec<usize> = if quick { vec![4, 8, 16, 32] } else { vec![3, 4, 5, 7, 8, 9, 15, 16, 17, 31, 32, 33, 127, 128, 129, 257] };
+    let decoy_counts: Vec<usize> = if quick { vec![3, 4, 5, 8, 17, 33, 64, 70, 129, 257, 300] } else { vec![0, 1, 3, 4, 5, 7, 8, 9, 15, 16, 17, 31, 32, 33, 63, 64, 65, 70, 127, 128, 129, 255, 256, 257, 300, 1023, 1024, 1025] };
+    for &pl in &prevs {
+        for ll in [pl + 1, pl + 20, 140, 258] {
+            if ll <= pl {
+                continue;
+            }
+            for &dc in &decoy_counts {
+                thresh_inputs.push(Named { name: format!("chain_threshold(prev={pl},long={ll},decoys={dc})"), data: chain_threshold(pl, ll, dc) });
+            }
+        }
+    }
+    let mut thresh_cfgs = vec![];
+    for level in 1..=9 {
+        thresh_cfgs.push(DCfg { level, strategy: 0, wbits: 15, mem_level: 8, wrap: Wrap::Raw });
+    }
+    for level in [4, 6, 7, 9] {
+        thresh_cfgs.push(DCfg { level, strategy: 1, wbits: 15, mem_level: 8, wrap: Wrap::Zlib });
+    }
+    Fams { tiny_inputs: tiny_set(quick), tiny_cfgs, shape_sets, big_cfgs, big_inputs, sweep_cfgs, sweep_inputs, align_cfgs, align_inputs, thresh_cfgs, thresh_inputs, rich: !quick }
 }
 
 fn level_class(level: i32) -> i32 {
@@ -392,6 +415,14 @@ pub fn for_each<F: FnMut(&mut Ctx, &DItem)>(ctx: &mut Ctx, fams: &Fams, sel: Sel
             for cfg in &fams.align_cfgs {
                 for (k, sched) in scheds.iter().enumerate() {
                     f(ctx, &DItem { fam: "sweep", cfg: *cfg, inp, sched, sched_idx: k });
+                }
+            }
+        }
+        let one = [DSched::one_shot()];
+        for inp in &fams.thresh_inputs {
+            for cfg in &fams.thresh_cfgs {
+                for (k, sched) in one.iter().enumerate() {
+                    f(ctx, &DItem { fam: "threshold", cfg: *cfg, inp, sched, sched_idx: k });
                 }
             }
         }
